@@ -661,7 +661,8 @@ def _slices_contiguous_by_induction(prog, sb, ln):
     if len(loops) != 1 or len(rets) != 1 or not isinstance(rets[0].value, ast.Name) or loops[0].orelse:
         return False
     lp, lst = loops[0], rets[0].value.id
-    if not (isinstance(lp.target, ast.Name) and U(lp.iter) == f"{ln}[1:]"):
+    by_index = isinstance(lp.target, ast.Name) and ast.unparse(lp.iter) in (f"range(1, len({ln}))", f"range(1, {ln}.size)")
+    if not (isinstance(lp.target, ast.Name) and (U(lp.iter) == f"{ln}[1:]" or by_index)):
         return False
     pre = body[:body.index(lp)]
     if body[body.index(lp) + 1:] != rets:
@@ -689,7 +690,14 @@ def _slices_contiguous_by_induction(prog, sb, ln):
         PREV, LEN = R.sym("PREV"), R.sym("LEN")
         e2 = {v: PREV for v in carried}
         e2[f"{lst}[-1].stop"] = PREV
-        e2[lp.target.id] = LEN
+        if by_index:
+            # iteration i (starting at 1) finds exactly i slices in the list: slices[i - 1] is the one appended last
+            iv = lp.target.id
+            e2[f"{ln}[{iv}]"] = LEN
+            e2[f"{lst}[{iv} - 1].stop"] = PREV
+            e2[f"{lst}[-1 + {iv}].stop"] = PREV
+        else:
+            e2[lp.target.id] = LEN
         e2[lst] = ListV([])
         # names defined before the loop and not changed in it keep their value only if they do not depend on the list
         for k_, v_ in env.items():
@@ -770,6 +778,10 @@ def _composite(prog):
         if not ok and len(rets) == 1 and isinstance(rets[0], ast.Name):
             # the same sum written as an accumulation:  K = zeros(..) ;  for c, s in zip(A, B): K += c(.., theta[s]) ;  return K
             acc = rets[0].id
+            from .common import as_augassign
+            for l in fn.body:
+                if isinstance(l, ast.For) and len(l.body) == 1:
+                    l.body[0] = as_augassign(l.body[0])          # K = K + e  is the update  K += e
             loops = [l for l in fn.body if isinstance(l, ast.For) and len(l.body) == 1 and isinstance(l.body[0], ast.AugAssign)
                      and isinstance(l.body[0].op, ast.Add) and U(l.body[0].target) == acc]
             inits = [st for st in fn.body if isinstance(st, ast.Assign) and U(st.targets[0]) == acc]
@@ -784,6 +796,14 @@ def _composite(prog):
                 pair = pmatch(it, "zip(_A, _B)")
                 got_elt = U(lp.body[0].value)
                 want_elt = w.format(c=cn, s=sn_, t=params[-1], a=params[0] if len(params) > 1 else "", b=params[1] if len(params) > 1 else "")
+                en_ = pmatch(it, "enumerate(_A)")
+                if pair is None and en_ is not None:
+                    # for i, c in enumerate(A): ... B[i] ...   pairs A and B position by position as zip(A, B) does
+                    idx_uses = {ast.unparse(x.value) for x in ast.walk(lp.body[0].value) if isinstance(x, ast.Subscript) and ast.unparse(x.slice) == cn}
+                    if len(idx_uses) == 1:
+                        B_ = next(iter(idx_uses))
+                        pair = {"_A": en_["_A"], "_B": B_}
+                        want_elt = w.format(c=sn_, s=f"{B_}[{cn}]", t=params[-1], a=params[0] if len(params) > 1 else "", b=params[1] if len(params) > 1 else "")
                 if pair is None:
                     shown = f"accumulation over `{U(it)}`"
                 elif (pair["_A"], pair["_B"]) != ("self.components", "self.slices"):
@@ -848,8 +868,18 @@ def _composite(prog):
     oth = add.args.args[1].arg
     ok = len(rets) == 1 and pmatch(rets[0], f"CompositeCovariance([*(self.components if isinstance(self, CompositeCovariance) else [self]), "
                                             f"*({oth}.components if isinstance({oth}, CompositeCovariance) else [{oth}])])") is not None
+    if not ok and len(rets) == 1 and isinstance(rets[0], ast.Call) and ast.unparse(rets[0].func) == "CompositeCovariance" \
+            and len(rets[0].args) == 1 and isinstance(rets[0].args[0], ast.BinOp) and isinstance(rets[0].args[0].op, ast.Add):
+        # the same list written as a concatenation - compared operand by operand, IN ORDER (list + is not commutative)
+        def strip(e):
+            while isinstance(e, ast.Call) and isinstance(e.func, ast.Name) and e.func.id in ("list", "tuple") and len(e.args) == 1:
+                e = e.args[0]
+            return ast.unparse(e)
+        l_, r_ = strip(rets[0].args[0].left), strip(rets[0].args[0].right)
+        ok = (l_ == "self.components if isinstance(self, CompositeCovariance) else [self]"
+              and r_ == f"{oth}.components if isinstance({oth}, CompositeCovariance) else [{oth}]")
     out.append(struct_ob("composition-order", qual(base, add), ok,
-                         f"k1 + k2 must keep the left operand's components first: `{U(rets[0])[:200] if rets else None}`", COV, add.lineno))
+                         f"k1 + k2 must keep the left operand's components first: `{ast.unparse(rets[0])[:200] if rets else None}`", COV, add.lineno))
     sb = prog.function(COV, "slice_builder")
     L = Layouts(sb, prog, prog.module(COV), None)
     rets = L.rz.returns()
@@ -907,7 +937,8 @@ def _composite(prog):
         tail = b[1]
         if tail[0] == "splice" and tail[1] in L2.state:
             tail = L2.state[tail[1]][0] if L2.state[tail[1]] is not UNKNOWN and len(L2.state[tail[1]]) == 1 else tail
-        okb = tail == ("zipflat", ("self.location_bounds", "self.width_bounds"))
+        okb = tail == ("zipflat", ("self.location_bounds", "self.width_bounds")) or \
+            tail == ("flat", ("iter", "zip(self.location_bounds, self.width_bounds)"), (("item", "va0"), ("item", "va1")))      # the same interleaving, appended pair by pair
     if not okb:
         why.append(f"bounds are not the kernels' bounds followed by interleaved (location, width) bounds: {show(b)}")
     # logistic(x, theta): theta[0] is the location, theta[1] the width
